@@ -182,6 +182,11 @@ namespace c02
             delete obj[1];
         }
         int nops() override { return (int)ops.size(); }
+        bool recreates(int o) const
+        {
+            int k = ops[o].kind;
+            return k == M_COPY_CTOR || k == M_MOVE_CTOR || k == M_CTOR_IL || k == M_DEFAULT_CTOR;
+        }
         static string lstr(const std::vector<std::pair<int, int>> &l)
         {
             string s = "{";
@@ -571,6 +576,11 @@ namespace c02
             delete obj[1];
         }
         int nops() override { return (int)ops.size(); }
+        bool recreates(int o) const
+        {
+            int k = ops[o].kind;
+            return k == S_COPY_CTOR || k == S_MOVE_CTOR || k == S_DEFAULT_CTOR || k == S_COMPARE_CTOR;
+        }
         static const char *skname(int k)
         {
             static const char *n[] = {"insert", "clear", "copy_assign", "move_assign", "copy_ctor", "move_ctor", "default_ctor", "compare_ctor", "insert_rvalue"};
